@@ -18,8 +18,10 @@ Each model states what the *library* does, nothing about quantem:
   scipy.interpolate.interp1d(x, y, kind)(t): kind of degree d reproduces polynomials of degree <= d; on exactly d+1 nodes it is
         the interpolating polynomial; without fill_value="extrapolate" a query outside [x0, x_last] raises ValueError.
 
-  np.mean(a, axis=k): arithmetic mean along an axis; np.median / min / max / quantile / mean(a): some real number
-  np.fft.fft2(a): an OPAQUE array (contents outside the model; arithmetic on it stays opaque)
+  np.mean(a, axis=k): arithmetic mean along an axis; np.median / min / max / mean(a), np.quantile(a, q): a real number that is a
+        FUNCTION of the contents of a (and of q) -- uninterpreted functions of a's ghost content identifier (see below)
+  np.fft.fft2(a): an OPAQUE array (entries outside the model) whose contents are a function of the contents of a; scalar
+        multiples and sums of opaque arrays with the same contents are tracked (a*X + b*X = (a+b)*X), anything else is unknown
   a[mask] (boolean mask of a's shape): 1-D, length = number of True entries (== a.size iff all True), values unspecified
   a[i] = v / a[i, :] = v: functional update of one leading slab, the right-hand side read in the pre-write state;
         per-slab ghost totals are remembered for concrete i
@@ -135,6 +137,55 @@ def total_of(arr):
     f = arr.fn
     n = _i(arr.shape[0])
     return FormalSum(0, [(n, lambda j, _f=f: _r(_f(j)))])
+
+
+# ------------------------------------------------------------------------------------------------
+# ghost content identifiers:  an integer NAMING an array's contents (shape and every entry).  Equal identifiers = equal contents;
+# nothing is ever derived from the identifier about individual entries.  Library functions of a whole array (np.median, np.quantile,
+# np.fft.fft2, ...) are uninterpreted functions of the identifier, so "identical images get identical statistics" is congruence.
+# The ghost is stamped with the write counters of the array and of the array it is a view of: any later write invalidates it.
+# ------------------------------------------------------------------------------------------------
+
+STAT = {n: z3.Function(f"np_{n}_of_content", z3.IntSort(), z3.RealSort()) for n in ("median", "mean", "min", "max")}
+QUANTILE = z3.Function("np_quantile_of_content", z3.IntSort(), z3.RealSort(), z3.RealSort())
+FFT2 = z3.Function("np_fft2_of_content", z3.IntSort(), z3.IntSort())
+
+
+def set_content(arr, tok):
+    arr._content = (tok, arr.writes, arr.base, arr.base.writes)
+    return arr
+
+
+def get_content(arr):
+    g = getattr(arr, "_content", None)
+    if g is None or not isinstance(arr, SymArr):
+        return None
+    tok, w, base, bw = g
+    if arr.writes != w or arr.base is not base or base.writes != bw:
+        return None
+    return tok
+
+
+def content_of(ctx, arr):
+    """the content identifier of `arr`; an array without one gets a fresh (unconstrained = unknown contents) identifier"""
+    tok = get_content(arr)
+    if tok is None:
+        tok = ctx.fresh("array_content", "int").t
+        set_content(arr, tok)
+    return tok
+
+
+def slab_content(arr, j):
+    """content identifier of the leading slab arr[j] (j concrete) as remembered by  arr[j] = v / given by a setup"""
+    g = getattr(arr, "_slab_cids", None)
+    if g is None or g[1] != arr.writes or j not in g[0]:
+        return None
+    return g[0][j]
+
+
+def set_slab_contents(arr, cids):
+    arr._slab_cids = (dict(cids), arr.writes)
+    return arr
 
 
 # ------------------------------------------------------------------------------------------------
@@ -362,35 +413,102 @@ def install(reg):
     def _stat(npf):
         def h(interp, x, *a, **kw):
             if isinstance(x, SymArr):
-                return interp.ctx.fresh(npf.__name__, "real")  # some real number; nothing else is used
+                if a or any(v is not None for v in kw.values()):
+                    return interp.ctx.fresh(npf.__name__, "real")  # axis= / out= ... variants: some real number
+                return Sym(STAT[npf.__name__](content_of(interp.ctx, x)))  # a function of the array's contents
             return interp.native(npf, x, *a, **kw)
 
         return h
 
-    for f in (np.median, np.min, np.max, np.quantile):
+    for f in (np.median, np.min, np.max):
         M[f] = _stat(f)
+
+    def m_quantile(interp, x, q, *a, **kw):
+        """np.quantile(a, q): a function of (contents of a, q)"""
+        if isinstance(x, SymArr) or contains_sym(q):
+            if a or any(v is not None for v in kw.values()) or isinstance(q, (SymArr, list, tuple)):
+                return interp.ctx.fresh("quantile", "real")
+            if not isinstance(x, SymArr):
+                raise OutOfSubset("np.quantile of a concrete array at a symbolic level")
+            return Sym(QUANTILE(content_of(interp.ctx, x), _r(q)))
+        return interp.native(np.quantile, x, q, *a, **kw)
+
+    M[np.quantile] = m_quantile
+
+    def m_isfinite(interp, x, **kw):
+        """np.isfinite(a): a boolean array of a's shape; WHICH entries are finite is left open (floats may hold NaN / inf)"""
+        if isinstance(x, SymArr):
+            return interp.ctx.fresh_arr("isfinite", x.shape, "bool")
+        if contains_sym(x):
+            return interp.ctx.fresh("isfinite", "bool")
+        return interp.native(np.isfinite, x, **kw)
+
+    M[np.isfinite] = m_isfinite
 
     def m_mean(interp, x, axis=None, **kw):
         if isinstance(x, SymArr):
             if axis is None:
-                return interp.ctx.fresh("mean", "real")
+                if any(v is not None for v in kw.values()):
+                    return interp.ctx.fresh("mean", "real")
+                return Sym(STAT["mean"](content_of(interp.ctx, x)))
             return x.mean(axis=axis)  # arithmetic mean along an axis (concrete small extents are expanded)
         return interp.native(np.mean, x, axis=axis, **kw)
 
     M[np.mean] = m_mean
 
     class OpaqueArray:
-        """A complex array whose contents are outside the model (FFT data): arithmetic gives another opaque array."""
+        """A complex array whose entries are outside the model (FFT data).  Ghost: its contents are  scale * X(tok)  for a content
+        identifier `tok` and a real `scale`; multiplication / division by a scalar acts on the scale, the sum of two arrays with
+        the SAME identifier adds the scales (a*X + b*X = (a+b)*X); every other operation gives unknown contents (fresh identifier)."""
 
         _pyvc_value = True
 
-        def _op(self, *a):
-            return OpaqueArray()
+        def __init__(self, ctx=None, tok=None, scale=None):
+            self.ctx = ctx
+            self.tok = tok if tok is not None else (ctx.fresh("opaque_content", "int").t if ctx is not None else None)
+            self.scale = z3.RealVal(1) if scale is None else scale
 
-        __add__ = __radd__ = __sub__ = __rsub__ = __mul__ = __rmul__ = __truediv__ = __rtruediv__ = _op
+        def _fresh(self, *a):
+            return OpaqueArray(self.ctx)
+
+        def _scalar(self, o):
+            return isinstance(o, (int, float, Sym)) and not isinstance(o, bool) and not (isinstance(o, Sym) and not (o.is_int or o.is_real))
+
+        def __mul__(self, o):
+            if self._scalar(o) and self.tok is not None:
+                return OpaqueArray(self.ctx, self.tok, z3.simplify(self.scale * _r(o)))
+            return self._fresh()
+
+        __rmul__ = __mul__
+
+        def __truediv__(self, o):
+            if self._scalar(o) and self.tok is not None and self.ctx is not None and self.ctx.entails(_r(o) != 0):
+                return OpaqueArray(self.ctx, self.tok, z3.simplify(self.scale / _r(o)))
+            return self._fresh()
+
+        def __add__(self, o):
+            if isinstance(o, OpaqueArray) and self.tok is not None and o.tok is not None and self.ctx is not None:
+                same = self.tok == o.tok
+                r = OpaqueArray(self.ctx, None, z3.simplify(z3.If(same, self.scale + o.scale, z3.RealVal(1))))
+                self.ctx.assume(z3.Implies(same, r.tok == self.tok))  # a*X + b*X = (a+b)*X
+                return r
+            return self._fresh()
+
+        __radd__ = __add__
+        __sub__ = __rsub__ = __rtruediv__ = _fresh
 
     reg.OpaqueArray = OpaqueArray
-    M[np.fft.fft2] = lambda interp, x, *a, **kw: OpaqueArray() if isinstance(x, (SymArr, OpaqueArray)) else interp.native(np.fft.fft2, x, *a, **kw)
+
+    def m_fft2(interp, x, *a, **kw):
+        if isinstance(x, SymArr):
+            if a or kw:
+                return OpaqueArray(interp.ctx)
+            return OpaqueArray(interp.ctx, FFT2(content_of(interp.ctx, x)))  # a function of the array's contents
+        if isinstance(x, OpaqueArray):
+            return OpaqueArray(interp.ctx)
+        return interp.native(np.fft.fft2, x, *a, **kw)
+
+    M[np.fft.fft2] = m_fft2
 
     # ---- ravel_multi_index / bincount
     def m_ravel_multi_index(interp, multi_index, dims, mode="raise", order="C"):
@@ -570,8 +688,18 @@ def install(reg):
                 slabs[ilit] = tv
         else:
             slabs = {}
+        sc = getattr(base, "_slab_cids", None)
+        cids = dict(sc[0]) if sc is not None and sc[1] == base.writes else {}
+        cv = get_content(va)
+        if isinstance(ilit, int) and not isinstance(ilit, bool):
+            cids.pop(ilit, None)
+            if cv is not None and va.ndim == base.ndim - 1 and all(V.dims_equal(p, q) for p, q in zip(va.shape, base.shape[1:])):
+                cids[ilit] = cv
+        else:
+            cids = {}
         base.writes += 1
         base._slab_totals = (slabs, base.writes)
+        base._slab_cids = (cids, base.writes)
         return True
 
     prev_set = reg.setitem_models.get(SymArr)
@@ -599,6 +727,13 @@ def install(reg):
     def arr_getitem(interp, base, key):
         if isinstance(key, tuple) and len(key) == 1:
             key = key[0]
+        if isinstance(key, int) and not isinstance(key, bool) and base.ndim >= 2 and not base.pylist:
+            n0 = V._dim_lit(base.shape[0])
+            cid = slab_content(base, key if key >= 0 or n0 is None else key + n0)
+            if cid is not None:
+                r = base[key]
+                return set_content(r, cid) if isinstance(r, SymArr) else r
+            return NotImplemented
         if not _is_mask(key, base):
             return NotImplemented
         ctx = interp.ctx
